@@ -1,4 +1,7 @@
-package props
+// Package refhpack is an independent RFC 7541 reference: Huffman coder, dynamic
+// table model, an encoder that exposes every representation choice, and a
+// strict decoder.
+package refhpack
 
 import (
 	"errors"
@@ -10,13 +13,13 @@ import (
 // Reference Huffman coder. The code table is recovered through x/net's public
 // API only (so it is independent of the code under test) and self-checked.
 var (
-	refHuffCode [256]uint32
-	refHuffLen  [256]uint8
-	refHuffDec  map[uint64]byte // (len<<32 | code) -> symbol
+	HuffCode [256]uint32
+	HuffLen  [256]uint8
+	huffDec  map[uint64]byte // (len<<32 | code) -> symbol
 )
 
 func init() {
-	refHuffDec = map[uint64]byte{}
+	huffDec = map[uint64]byte{}
 	var kraft float64
 	for b := 0; b < 256; b++ {
 		s := string([]byte{byte(b)})
@@ -27,13 +30,13 @@ func init() {
 			v = v<<8 | uint64(x)
 		}
 		v >>= uint(len(enc)*8) - uint(n)
-		refHuffCode[b] = uint32(v)
-		refHuffLen[b] = uint8(n)
+		HuffCode[b] = uint32(v)
+		HuffLen[b] = uint8(n)
 		k := uint64(n)<<32 | v
-		if _, dup := refHuffDec[k]; dup {
+		if _, dup := huffDec[k]; dup {
 			panic("reference huffman table: duplicate code")
 		}
-		refHuffDec[k] = byte(b)
+		huffDec[k] = byte(b)
 		kraft += 1 / float64(uint64(1)<<n)
 	}
 	// Kraft: 256 symbols + the 30-bit EOS fill the code space exactly.
@@ -43,13 +46,13 @@ func init() {
 	}
 }
 
-func refHuffEncode(s []byte) []byte {
+func HuffEncode(s []byte) []byte {
 	var out []byte
 	var acc uint64
 	var nb uint
 	for _, b := range s {
-		acc = acc<<refHuffLen[b] | uint64(refHuffCode[b])
-		nb += uint(refHuffLen[b])
+		acc = acc<<HuffLen[b] | uint64(HuffCode[b])
+		nb += uint(HuffLen[b])
 		for nb >= 8 {
 			nb -= 8
 			out = append(out, byte(acc>>nb))
@@ -62,11 +65,11 @@ func refHuffEncode(s []byte) []byte {
 	return out
 }
 
-var errRefHuff = errors.New("invalid huffman data")
+var ErrHuffman = errors.New("invalid huffman data")
 
-// refHuffDecode: complete codes, then at most 7 padding bits, all ones; an EOS
+// HuffDecode: complete codes, then at most 7 padding bits, all ones; an EOS
 // (30 ones) inside the string is an error.
-func refHuffDecode(src []byte) ([]byte, error) {
+func HuffDecode(src []byte) ([]byte, error) {
 	out := []byte{}
 	var code uint64
 	var n uint
@@ -74,19 +77,19 @@ func refHuffDecode(src []byte) ([]byte, error) {
 		for i := 7; i >= 0; i-- {
 			code = code<<1 | uint64(x>>uint(i)&1)
 			n++
-			if sym, ok := refHuffDec[uint64(n)<<32|code]; ok {
+			if sym, ok := huffDec[uint64(n)<<32|code]; ok {
 				out = append(out, sym)
 				code, n = 0, 0
 			} else if n >= 30 {
-				return nil, errRefHuff // EOS or garbage
+				return nil, ErrHuffman // EOS or garbage
 			}
 		}
 	}
 	if n > 7 {
-		return nil, errRefHuff
+		return nil, ErrHuffman
 	}
 	if code != (1<<n)-1 {
-		return nil, errRefHuff
+		return nil, ErrHuffman
 	}
 	return out, nil
 }
